@@ -28,9 +28,10 @@ EVDIR = os.path.join(BUILD, "selftest-out", str(os.getpid())) if SELFTEST else o
 RPDIR = os.path.join(BUILD, "selftest-out", str(os.getpid())) if SELFTEST else os.path.join(VERIF, "replays")
 STUBS = os.path.join(VERIF, "stubs")
 MEM_KB = 12 * 1024 * 1024
-# SAT back end for targets that do not name one: cadical (MiniSat, cbmc's default, is pathological on several contract
-# instances here - minutes instead of seconds; DESIGN 13); VERIF_SAT=minisat2 switches back
-DEFAULT_SAT = os.environ.get("VERIF_SAT", "cadical")
+# SAT back end for targets that do not name one: MiniSat (cbmc's default).  Targets on which MiniSat is pathological name
+# CaDiCaL themselves (solver="sat:cadical": the K13 grammar units, parse_num, the guard lemmas; DESIGN 13) - and CaDiCaL is in
+# turn slower on others (SkipWS), so neither is used blindly; VERIF_SAT=cadical switches the default
+DEFAULT_SAT = os.environ.get("VERIF_SAT", "minisat2")
 if DEFAULT_SAT in ("minisat2", "default", ""):
     DEFAULT_SAT = None
 
